@@ -30,6 +30,50 @@ def compose(rng, policy, mid, ctx, matches, worklist, max_len):
     return tr_scp, extra, rsps
 
 
+def whole_stack_finds(rng, n):
+    from . import realnet as R, svc as S
+    import pydicom
+    ae_mod = R.applicationentity
+    sc, statuses = K.sopclass, K.statuses
+    out = []
+    for k in range(n):
+        nm = rng.choice([3, 5])
+        matches = []
+        for i in range(nm):
+            ds = pydicom.Dataset()
+            ds.PatientID = 'P%d' % i
+            ds.PatientName = 'Match^%d' % i
+            ds.StudyDescription = 'x' * rng.choice([10, 300, 700])
+            matches.append((ds, statuses.C_FIND_PENDING if i % 2 == 0 else statuses.C_FIND_PENDING_WARNING))
+        srv = R.server_ae(ae_mod.AE, 'SRV', 0, max_pdu_length=16384)
+        srv.add_scp(sc.qr_find_scp)
+        srv.on_receive_find = lambda context, ds, m=matches: iter(m)
+        srv.timeout = 20
+        cl = ae_mod.ClientAE('CL', max_pdu_length=rng.choice([256, 512])).add_scu(sc.qr_find_scu)
+        cl.timeout = 8
+        addr = ('find.example', 104)
+        mid = rng.choice(K.MIDS[1:])
+        sop = sc.PATIENT_ROOT_FIND_SOP_CLASS
+        wire = [{'d': S.token(K.enc(ds)), 's': int(st)} for ds, st in matches] + [{'d': 0, 's': 0}]
+        tr = [{'ev': 'Req', 'svc': 'find-scu', 'req': {'type': 0x0020, 'ctx': 1, 'mid': mid, 'cls': str(sop), 'inst': ''}}]
+        extra = {}
+        with R.Net(batch=0.25) as net:
+            net.register(addr, srv)
+            try:
+                with cl.request_association({'aet': 'SRV', 'address': addr[0], 'port': addr[1]}) as assoc:
+                    q = pydicom.Dataset()
+                    q.PatientID = '*'
+                    for ds, st in assoc.get_scu(sop)(q, mid):
+                        tr.append({'ev': 'Got', 'd': S.token(K.enc(ds)) if ds is not None else 0, 's': int(st), 'wire': wire})
+            except Exception as exc:      # noqa
+                extra['raised'] = 'whole-stack C-FIND with batched delivery raised %s: %s after %d of %d responses' % (
+                    type(exc).__name__, exc, len(tr) - 1, len(wire))
+            net.wait_all(30)
+        tr.append({'ev': 'End', 'sent': 1, 'drained': 1})
+        out.append((tr, extra, {'svc': 'qr_find_scu', 'whole_stack': True, 'matches': nm, 'batched_delivery_s': 0.25}))
+    return out
+
+
 def main(tier='quick'):
     v = Verdict('C16', tier)
     rng = random.Random(seed())
@@ -57,7 +101,9 @@ def main(tier='quick'):
                 mid = rng.choice(K.MIDS)
                 ctx = rng.choice([1, 3, 255])
                 max_len = rng.choice([16384, 40, 64, 'fit', 'fit2'])       # small maxima force multi-fragment responses, exact fits included
-                ms = [(s, rng.choice([0, 10, 100])) for s in seq]
+                ms = [(s, rng.choice([0, 10, 100, -1])) for s in seq]
+                if ms and ms[0][1] < 0 and max_len in ('fit', 'fit2'):
+                    ms[0] = (ms[0][0], 10)
                 tr, extra = K.run_find_scp(rng, pol, mid, ctx, ms, worklist, max_len)
                 add(tr, extra, {'svc': 'modality_work_list_scp' if worklist else 'qr_find_scp', 'policy': str(pol), 'statuses': seq, 'max': max_len})
     for seq in seqs:
@@ -67,6 +113,10 @@ def main(tier='quick'):
                 ms = [(s, rng.choice([0, 10, 100])) for s in seq]
                 tr, extra = K.run_find_scu(rng, mid, rng.choice([1, 5, 255]), ms, final, worklist)
                 add(tr, extra, {'svc': 'modality_work_list_scu' if worklist else 'qr_find_scu', 'statuses': seq, 'final': final})
+    # whole stack: real provider threads on both sides, the provider's responses reach the user in batches (several
+    # P-DATA-TF PDUs per segment), small maximum PDU length -> every response spans many PDUs
+    for tr, extra, meta in whole_stack_finds(rng, 2 if tier == 'quick' else 12):
+        add(tr, extra, meta)
     res, stats = tlc.validate_traces('Trace_Services', 'Trace_Services.cfg', traces, chunk=5000)
     for tr, r, meta in zip(traces, res, metas):
         if r['ok']:
